@@ -1,3 +1,4 @@
+import re
 from typing import Callable, Dict
 from uuid import UUID
 import warnings
@@ -65,8 +66,39 @@ def _is_uuid(value: str) -> bool:
     return True
 
 
+_RFC_3339 = re.compile(
+    r"(\d{4})-(\d{2})-(\d{2})[Tt](\d{2}):(\d{2}):(\d{2})(?:\.\d+)?"
+    r"(?:[Zz]|[+-](\d{2}):(\d{2}))"
+)
+
+
+def _is_rfc_3339(value: str) -> bool:
+    """Check for a timestamp in the RFC 3339 `date-time` format.
+
+    Includes leap seconds and the year 0000, which `dateutil` rejects.
+    """
+    match = _RFC_3339.fullmatch(value)
+    if not match:
+        return False
+    year, month, day, hour, minute, second = map(int, match.groups()[:6])
+    offset_hour, offset_minute = map(int, match.groups("0")[6:])
+    leap = year % 4 == 0 and (year % 100 != 0 or year % 400 == 0)
+    days = [31, 29 if leap else 28, 31, 30, 31, 30, 31, 31, 30, 31, 30, 31]
+    return (
+        1 <= month <= 12
+        and 1 <= day <= days[month - 1]
+        and hour <= 23
+        and minute <= 59
+        and second <= 60
+        and offset_hour <= 23
+        and offset_minute <= 59
+    )
+
+
 @format_checker.register("date-time")
 def _is_date_time(value: str) -> bool:
+    if _is_rfc_3339(value):
+        return True
     try:
         parse_datetime(value)
     except (ParserError, TypeError):
